@@ -68,3 +68,17 @@ def parser_over(toks):
 
 def data_eq(a, b):
     return a == b
+
+
+_CORPUS = None
+
+
+def corpus():
+    """inputs the test-suite feeds parse_string (recorded once into corpus/tests.json): valid, no preprocessor"""
+    global _CORPUS
+    if _CORPUS is None:
+        import json
+        p = os.path.join(os.path.dirname(os.path.dirname(os.path.abspath(__file__))), "corpus", "tests.json")
+        with open(p) as fp:
+            _CORPUS = [c["content"] for c in json.load(fp) if c.get("ok") and not c.get("pp")]
+    return _CORPUS
